@@ -53,11 +53,26 @@ func Check(c *core.Ctx) (map[string]any, []string, error) {
 	if s := os.Getenv("VERIF_C01_PROGRAMS"); s != "" {
 		fmt.Sscan(s, &nProg)
 	}
+	// dedicated programs made of the families "label names on both sides of an activation boundary"
+	// (gen_labels.go) and "objects with observable conversion methods under every operator"
+	// (gen_scen.go scenConvOrder); a generator of their own, so the random programs of a seed stay what they were
+	nLab := 500
+	if c.Thorough() {
+		nLab = 6000
+	}
+	if s := os.Getenv("VERIF_C01_FAMILYPROGS"); s != "" {
+		fmt.Sscan(s, &nLab)
+	}
 	g := NewGen(c.Seed)
-	recs := make([]*progRec, nProg)
+	recs := make([]*progRec, nProg, nProg+nLab)
 	for i := range recs {
 		p := g.Program()
 		recs[i] = &progRec{id: i + 1, prog: p, src: RenderProgram(p), obs: map[string]Obs{}}
+	}
+	gl := NewGen(c.Seed ^ 0x1abe15)
+	for i := 0; i < nLab; i++ {
+		p := gl.FamilyProgram(1 + gl.pick(3))
+		recs = append(recs, &progRec{id: len(recs) + 1, prog: p, src: RenderProgram(p), obs: map[string]Obs{}})
 	}
 	// run all routes in parallel
 	var wg sync.WaitGroup
@@ -134,6 +149,9 @@ func Check(c *core.Ctx) (map[string]any, []string, error) {
 			switch v.Status {
 			case "und":
 				nUnd++
+				if os.Getenv("VERIF_C01_SHOW_UND") != "" { // development aid
+					fmt.Printf("UNDECIDED route %s:\n%s----\n", k.route, k.rec.src)
+				}
 			case "dev":
 				nDev++
 				c.Hit("deviation")
@@ -163,7 +181,7 @@ func Check(c *core.Ctx) (map[string]any, []string, error) {
 	}
 	cov := map[string]any{
 		"states": res.Distinct, "transitions": res.Generated, "traces_validated_against_impl": judged,
-		"samples": samples, "programs": nProg, "route_runs": nRouteRuns, "routes": Routes,
+		"samples": samples, "programs": nProg, "family_programs": nLab, "route_runs": nRouteRuns, "routes": Routes,
 		"route_disagreements_judged_individually": nRouteDiff,
 		"undecided_left_modelled_fragment":        nUnd, "rejected": nBad, "conforming_to_known_deviation": nDev,
 		"conforming": judged - nUnd - nBad - nDev,
@@ -171,6 +189,7 @@ func Check(c *core.Ctx) (map[string]any, []string, error) {
 	}
 	assumptions := []string{
 		"programs come from the seeded generator harness/internal/c01/gen.go (valid, terminating, inside the modelled fragment); the renderer parenthesises every sub-expression (the parser is property C03)",
+		"family_programs further programs consist of fragments of two dedicated families only: gen_labels.go (the same label names on both sides of a call / accessor / conversion / call-back / eval boundary, every way of leaving the labelled statement, the jump in catch / finally / after the try statement) and gen_scen.go scenConvOrder (objects whose valueOf / toString log, return objects, are missing or throw, under every operator position)",
 		"oracle: spec/ES5Core.tla evaluated by TLC on the same abstract syntax tree; programs it classifies 'undecided' (unmodelled built-in reached, fuel exhausted) are skipped and counted",
 		"observation: host-function call log with projected arguments (objects by [[Class]]), completion value, uncaught exception class; thrown primitives by their string form",
 		"routes 2-5 are compared with route 1 and judged individually only when they differ",
